@@ -651,6 +651,302 @@ static void check_serial(void)
 	res->cls[K_COMMITTED] = M;
 }
 
+
+/* ---- statistics file (C20) ------------------------------------------------------------------------------------------- */
+struct sreader {
+	unsigned char *d;
+	size_t n, i;
+	int bad;
+};
+static uint64_t rd(struct sreader *r, unsigned nb)
+{
+	uint64_t v = 0;
+	if(r->i + nb > r->n) {
+		r->bad = 1;
+		r->i = r->n;
+		return 0;
+	}
+	memcpy(&v, r->d + r->i, nb);
+	r->i += nb;
+	return v;
+}
+
+enum { S_PROCESSED = 0, S_ROLLBACK = 2, S_MSG_ROLLBACK = 4, S_CKPT = 5, S_SILENT = 8, S_ANTI = 10 };
+
+static void check_stats(const char *stats_path)
+{
+	struct rsv_result *res = RT.res;
+	const struct gm_spec *g = &gm_spec;
+	char path[320];
+	snprintf(path, sizeof path, "%s.bin", stats_path);
+	FILE *f = fopen(path, "rb");
+	if(!f) {
+		rt_fail("C20", "a statistics file was requested but %s was not produced", path);
+		return;
+	}
+	struct sreader R = {0};
+	fseek(f, 0, SEEK_END);
+	R.n = (size_t)ftell(f);
+	fseek(f, 0, SEEK_SET);
+	R.d = malloc(R.n + 1);
+	if(fread(R.d, 1, R.n, f) != R.n)
+		R.bad = 1;
+	fclose(f);
+	/* independent reader, written from the layout tables in the documentation of log/stats.c */
+	uint64_t magic = rd(&R, 2);
+	if(magic != 61455) {
+		rt_fail("C20", "statistics file: magic number %llu instead of 61455", (unsigned long long)magic);
+		goto out;
+	}
+	int64_t s_cnt = (int64_t)rd(&R, 8);
+	if(s_cnt < 11 || s_cnt > 64) {
+		rt_fail("C20", "statistics file: implausible metric count %lld", (long long)s_cnt);
+		goto out;
+	}
+	int idx_of[16];
+	for(int i = 0; i < 16; i++)
+		idx_of[i] = -1;
+	for(int64_t i = 0; i < s_cnt && !R.bad; i++) {
+		unsigned l = (unsigned)rd(&R, 1);
+		char name[260] = "";
+		if(R.i + l > R.n) {
+			R.bad = 1;
+			break;
+		}
+		memcpy(name, R.d + R.i, l);
+		R.i += l;
+		static const struct {
+			const char *n;
+			int k;
+		} want[] = {{"processed messages", S_PROCESSED}, {"rollbacks", S_ROLLBACK}, {"rolled back messages", S_MSG_ROLLBACK},
+		    {"checkpoints", S_CKPT}, {"silent messages", S_SILENT}, {"anti messages", S_ANTI}};
+		for(unsigned w = 0; w < 6; w++)
+			if(!strcmp(name, want[w].n))
+				idx_of[want[w].k] = (int)i;
+	}
+	for(unsigned w = 0; w < 6; w++) {
+		static const int ks[] = {S_PROCESSED, S_ROLLBACK, S_MSG_ROLLBACK, S_CKPT, S_SILENT, S_ANTI};
+		if(idx_of[ks[w]] < 0 && !R.bad) {
+			rt_fail("C20", "statistics file: a documented per-thread metric name is missing from the preamble (metric %d)", ks[w]);
+			goto out;
+		}
+	}
+	int64_t n_cnt = (int64_t)rd(&R, 8);
+	if(n_cnt != 1) {
+		rt_fail("C20", "statistics file: %lld node records for a single-node run", (long long)n_cnt);
+		goto out;
+	}
+	uint64_t glob[9];
+	for(int i = 0; i < 9; i++)
+		glob[i] = rd(&R, 8);
+	uint64_t t_cnt = glob[0];
+	unsigned eff_thr = RT.cfg.n_threads < g->n_lps ? RT.cfg.n_threads : g->n_lps;
+	if(t_cnt != eff_thr) {
+		rt_fail("C20", "statistics file: thread count %llu, the run used %u threads", (unsigned long long)t_cnt, eff_thr);
+		goto out;
+	}
+	int64_t n_siz = (int64_t)rd(&R, 8);
+	if(n_siz < 0 || n_siz % 16) {
+		rt_fail("C20", "statistics file: node GVT array size %lld is not a multiple of 16", (long long)n_siz);
+		goto out;
+	}
+	size_t n_rec = (size_t)(n_siz / 16);
+	double *gv = malloc((n_rec + 1) * sizeof(double));
+	for(size_t i = 0; i < n_rec; i++) {
+		uint64_t b = rd(&R, 8);
+		memcpy(&gv[i], &b, 8);
+		(void)rd(&R, 8);
+		if(i && gv[i] < gv[i - 1])
+			rt_fail("C20", "statistics file: GVT column decreases from %a to %a at record %zu", gv[i - 1], gv[i], i);
+	}
+	res->cls[K_STATS_RECORDS] = n_rec;
+	/* what happened, per thread (rid) and per flush period, from the hook trace */
+	size_t tn = rsv_trace_n();
+	int have_trace = !rsv_trace_overflow();
+	uint64_t (*per)[6] = NULL;
+	size_t per_cap = 0;
+	uint64_t **cnts = calloc(t_cnt, sizeof *cnts); /* cnts[rid][period*6 + k] */
+	size_t *nper = calloc(t_cnt, sizeof *nper);
+	size_t *capper = calloc(t_cnt, sizeof *capper);
+	(void)per;
+	(void)per_cap;
+	double *tgv = NULL;
+	size_t ntgv = 0;
+	if(have_trace) {
+		for(size_t i = 0; i < tn; i++) {
+			const struct rsv_rec *r = &rsv_trace[i];
+			if(r->rid < 0 || (uint64_t)r->rid >= t_cnt)
+				continue;
+			int k = -1;
+			switch(r->kind) {
+				case RSV_EV_PROCESS:
+					k = 0;
+					break;
+				case RSV_EV_ROLLBACK:
+					k = 1;
+					break;
+				case RSV_EV_UNPROCESS:
+					k = 2;
+					break;
+				case RSV_EV_CKPT:
+					k = 3;
+					break;
+				case RSV_EV_SILENT:
+					k = 4;
+					break;
+				case RSV_EV_ANTI_LOCAL:
+				case RSV_EV_ANTI_REMOTE:
+					k = 5;
+					break;
+				case RSV_EV_STATS_FLUSH:
+					k = 6;
+					break;
+				case RSV_EV_GVT:
+					if(r->rid == 0) {
+						tgv = realloc(tgv, (ntgv + 1) * sizeof(double));
+						tgv[ntgv++] = r->t;
+					}
+					break;
+				default:
+					break;
+			}
+			if(k < 0)
+				continue;
+			int t = r->rid;
+			if(nper[t] + 2 > capper[t]) {
+				size_t nc = capper[t] ? capper[t] * 2 : 16;
+				cnts[t] = realloc(cnts[t], nc * 6 * sizeof(uint64_t));
+				memset(cnts[t] + capper[t] * 6, 0, (nc - capper[t]) * 6 * sizeof(uint64_t));
+				capper[t] = nc;
+			}
+			if(k == 6)
+				nper[t]++;
+			else
+				cnts[t][nper[t] * 6 + k]++;
+		}
+	}
+	static const int col[6] = {S_PROCESSED, S_ROLLBACK, S_MSG_ROLLBACK, S_CKPT, S_SILENT, S_ANTI};
+	static const char *cname[6] = {"forward executions", "rollbacks", "undone events", "checkpoints", "silent re-executions", "anti-messages"};
+	int stopped = g->stop_lp >= 0;
+	for(uint64_t t = 0; t < t_cnt && !R.bad && res->verdict != RSV_FAIL; t++) {
+		int64_t t_siz = (int64_t)rd(&R, 8);
+		if(t_siz < 0 || t_siz % (s_cnt * 8)) {
+			rt_fail("C20", "statistics file: thread %llu array size %lld is not a multiple of %lld", (unsigned long long)t, (long long)t_siz,
+			    (long long)(s_cnt * 8));
+			break;
+		}
+		size_t recs = (size_t)(t_siz / (s_cnt * 8));
+		if(recs != n_rec) {
+			size_t dlt = recs > n_rec ? recs - n_rec : n_rec - recs;
+			if(!stopped || dlt > 1)
+				rt_fail("C20", "statistics file: thread %llu has %zu per-GVT records, the node has %zu%s", (unsigned long long)t, recs, n_rec,
+				    stopped ? " (run stopped by RootsimStop: a difference of one round is tolerated)" : "");
+		}
+		uint64_t cum_fwd = 0, cum_undone = 0;
+		for(size_t k = 0; k < recs && !R.bad; k++) {
+			uint64_t v[64];
+			for(int64_t j = 0; j < s_cnt; j++)
+				v[j] = rd(&R, 8);
+			cum_fwd += v[idx_of[S_PROCESSED]];
+			cum_undone += v[idx_of[S_MSG_ROLLBACK]];
+			if(cum_undone > cum_fwd)
+				rt_fail("C20", "statistics file: thread %llu: cumulative undone events (%llu) exceed forward executions (%llu) at record %zu",
+				    (unsigned long long)t, (unsigned long long)cum_undone, (unsigned long long)cum_fwd, k);
+			if(have_trace && k < nper[t])
+				for(int c = 0; c < 6; c++)
+					if(v[idx_of[col[c]]] != cnts[t][k * 6 + c]) {
+						rt_fail("C20", "statistics file: thread %llu record %zu reports %llu %s, but %llu occurred on that thread since its previous record",
+						    (unsigned long long)t, k, (unsigned long long)v[idx_of[col[c]]], cname[c], (unsigned long long)cnts[t][k * 6 + c]);
+						break;
+					}
+		}
+		if(have_trace && nper[t] != recs)
+			rt_fail("C20", "statistics file: thread %llu wrote %zu records but flushed %zu times", (unsigned long long)t, recs, nper[t]);
+	}
+	if(R.bad)
+		rt_fail("C20", "statistics file is truncated: its size fields lead beyond the end of the file (%zu bytes)", R.n);
+	else if(res->verdict != RSV_FAIL && R.i != R.n)
+		rt_fail("C20", "statistics file has %zu trailing bytes after the documented layout", R.n - R.i);
+	/* the GVT column is what thread 0 was told */
+	if(have_trace && res->verdict != RSV_FAIL) {
+		if(ntgv != n_rec)
+			rt_fail("C20", "statistics file: %zu node records but thread 0 was told %zu GVT values", n_rec, ntgv);
+		else
+			for(size_t i = 0; i < n_rec; i++)
+				if(gv[i] != tgv[i]) {
+					rt_fail("C20", "statistics file: GVT column record %zu is %a, the GVT reported in that round was %a", i, gv[i], tgv[i]);
+					break;
+				}
+	}
+	for(uint64_t t = 0; t < t_cnt; t++)
+		free(cnts[t]);
+	free(cnts);
+	free(nper);
+	free(capper);
+	free(tgv);
+	free(gv);
+out:
+	free(R.d);
+}
+
+static void check_stats_serial(const char *stats_path)
+{
+	/* the serial runtime writes one thread; only well-formedness and the GVT column can be judged */
+	char path[320];
+	snprintf(path, sizeof path, "%s.bin", stats_path);
+	FILE *f = fopen(path, "rb");
+	if(!f) {
+		rt_fail("C20", "a statistics file was requested but %s was not produced (serial runtime)", path);
+		return;
+	}
+	struct sreader R = {0};
+	fseek(f, 0, SEEK_END);
+	R.n = (size_t)ftell(f);
+	fseek(f, 0, SEEK_SET);
+	R.d = malloc(R.n + 1);
+	if(fread(R.d, 1, R.n, f) != R.n)
+		R.bad = 1;
+	fclose(f);
+	if(rd(&R, 2) != 61455)
+		rt_fail("C20", "serial statistics file: wrong magic number");
+	int64_t s_cnt = (int64_t)rd(&R, 8);
+	for(int64_t i = 0; i < s_cnt && !R.bad; i++)
+		R.i += rd(&R, 1);
+	int64_t n_cnt = (int64_t)rd(&R, 8);
+	uint64_t glob0 = 0;
+	for(int i = 0; i < 9; i++) {
+		uint64_t v = rd(&R, 8);
+		if(!i)
+			glob0 = v;
+	}
+	int64_t n_siz = (int64_t)rd(&R, 8);
+	double prev = -1;
+	for(int64_t i = 0; i < n_siz / 16 && !R.bad; i++) {
+		uint64_t b = rd(&R, 8);
+		double gvt;
+		memcpy(&gvt, &b, 8);
+		(void)rd(&R, 8);
+		if(gvt < prev)
+			rt_fail("C20", "serial statistics file: GVT column decreases from %a to %a", prev, gvt);
+		prev = gvt;
+	}
+	for(uint64_t t = 0; t < glob0 && !R.bad; t++) {
+		int64_t t_siz = (int64_t)rd(&R, 8);
+		if(s_cnt > 0 && t_siz / (s_cnt * 8) != n_siz / 16)
+			rt_fail("C20", "serial statistics file: %lld thread records, %lld node records", (long long)(t_siz / (s_cnt * 8)), (long long)(n_siz / 16));
+		R.i += (size_t)t_siz;
+		if(R.i > R.n)
+			R.bad = 1;
+	}
+	if(R.bad || n_cnt != 1 || glob0 != 1 || n_siz % 16)
+		rt_fail("C20", "serial statistics file does not parse according to the documented layout (nodes=%lld threads=%llu node array %lld bytes, truncated=%d)",
+		    (long long)n_cnt, (unsigned long long)glob0, (long long)n_siz, R.bad);
+	else if(R.i != R.n)
+		rt_fail("C20", "serial statistics file has %zu trailing bytes", R.n - R.i);
+	RT.res->cls[K_STATS_RECORDS] = (uint64_t)(n_siz / 16);
+	free(R.d);
+}
+
 /* ---- end of run ----------------------------------------------------------------------------------------------------- */
 void rt_oracles_end(const char *stats_path)
 {
@@ -756,5 +1052,12 @@ void rt_oracles_end(const char *stats_path)
 		res->nontrivial = res->cls[K_STATS_RECORDS] >= 2 && res->cls[K_ROLLBACKS] > 0;
 	else
 		res->nontrivial = res->cls[K_ROLLBACKS] > 0;
-	(void)stats_path;
+	if(RT.cfg.stats && stats_path && stats_path[0]) {
+		if(RT.cfg.serial)
+			check_stats_serial(stats_path);
+		else
+			check_stats(stats_path);
+		if(!strcmp(p, "C20"))
+			res->nontrivial = res->cls[K_STATS_RECORDS] >= 2 && (RT.cfg.serial || res->cls[K_ROLLBACKS] > 0);
+	}
 }
